@@ -456,7 +456,8 @@ INT_POOL = [-3, -1, 0, 1, 2, 3, 5, 6]
 STR_POOL = ["", "a", "ab", "abc", "b", "A", "\xe9", "a\nb", "a'b\"c", "\\", "\x00x", "zz\x7f",
             "\U0001f600", "line1\nline2\n", "ab ab", "'''", 'say "hi"\n', "tab\there", "caf\xe9 ☃"]
 BYTES_POOL = ["", "61", "6162", "fffe", "610a62", "00", "636166c3a9", "27225c"]
-LIST_POOL = [[], [1], [1, 2], [2, 1], [1, 1], [1, 2, 3], [3, 3, 3], [0, -1, 5], [2, 2, 1, 1], [6, 5, 3, 2, 1]]
+LIST_POOL = [[], [1], [1, 2], [2, 1], [1, 1], [1, 2, 3], [3, 3, 3], [0, -1, 5], [2, 2, 1, 1], [6, 5, 3, 2, 1],
+             [1, 2, 2], [1, 1, 2], [2, 1, 2]]
 DICT_POOL = [{}, {"a": 1}, {"a": 2}, {"a": 1, "b": 2}, {"b": 2}, {"a": 0, "b": 0, "c": 3}, {"\xe9": 1},
              {"a": 0}, {"a": 1, "b": 0}]
 OBJ_POOL = [{"a": 1, "b": 2, "s": "ab"}, {"a": 0, "b": 0, "s": ""}, {"a": -1, "b": 5, "s": "\xe9"},
@@ -473,7 +474,9 @@ WARNCALL_POOL = [{"ret": 1}, {"warn": [["DeprecationWarning", "old foo"]], "ret"
                  {"warn": [["RuntimeWarning", "x"], ["RuntimeWarning", "x"]]}]
 LSTR_POOL = [[], ["x"], ["x", "y"], ["y", "x"], ["a", "a"], ["x", "y", "z"]]
 REGEXES = [["a", 0], ["a.*c", 0], ["^$", 0], ["[ab]+$", 0], ["\xe9", 0], ["A", re.I], ["a.b", re.S],
-           ["line1$", re.M], [".*\\\\", 0]]
+           ["line1$", re.M], [".*\\\\", 0],
+           # the same patterns with other flags: a verdict must not depend on matchers built earlier
+           ["A", 0], ["a", re.I], ["a.b", 0], ["line1$", 0]]
 
 
 def values_of(domain):
@@ -526,7 +529,7 @@ def leaves(domain, rng=None):
                   ["Contains", {"b": h}]]
         L += [["HasLength", 2], ["MatchesRegex", {"b": "612e"}, re.S], ["IsInstance", ["bytes"]]]
     elif domain == "list":
-        for c in ([], [1, 2], [2, 1], [1, 1]):
+        for c in ([], [1, 2], [2, 1], [1, 1], [1, 1, 2], [2, 2, 1, 1]):
             L += [["Equals", c], ["SameMembers", c], ["ContainsAll", c]]
         L += [["HasLength", 0], ["HasLength", 2], ["Contains", 1], ["Contains", 7],
               ["MatchesPredicate", "truthy_l"], ["IsInstance", ["list", "tuple"]]]
